@@ -882,8 +882,8 @@ def _swap_names(e, a, b):
             if n.id == b:
                 return ast.copy_location(ast.Name(id=a, ctx=n.ctx), n)
             return n
-    import copy
-    return Sw().visit(copy.deepcopy(e))
+    from ..astutil import clone
+    return Sw().visit(clone(e))
 
 
 def _canon_bool(e):
@@ -1038,8 +1038,12 @@ def r_json_load(E):
         elif len(res.samples) < 3:
             res.samples.append({"conversion": nm, "verdict": "unconditional within its kind branch"})
     # object creation reads the sections after the upgrade handlers ran
-    upg = next((n for n in ast.walk(fn) if isinstance(n, ast.For) and any(
-        isinstance(x, ast.Name) and x.id == "VERSION_UPGRADE_HANDLERS" for x in ast.walk(n))), None)
+    from ..astutil import nodes_through_helpers
+    is_upg = lambda n: isinstance(n, ast.For) and any(
+        isinstance(x, ast.Name) and x.id == "VERSION_UPGRADE_HANDLERS" for x in ast.walk(n))
+    # (inside an extracted function the loop is positioned at the call that reaches it)
+    upg = next((n for n in nodes_through_helpers(fn, find_function=pm.function_finder(rel), want=is_upg, depth=2)
+                if is_upg(n)), None)
     creation = next((n for n in fn.body if isinstance(n, ast.For) and any(
         isinstance(c, ast.Call) and isinstance(c.func, ast.Attribute) and c.func.attr == "__new__" for c in ast.walk(n))), None)
     res.instances += 1
@@ -1052,7 +1056,7 @@ def r_json_load(E):
             defs = [n for n in ast.walk(fn) if isinstance(n, ast.Assign) and norm(n.targets[0]) == it.id]
             src_line = min(d.lineno for d in defs) if defs else creation.lineno
             it = defs[0].value if defs else it
-        if "system_dict" not in norm(it):
+        if fn.args.args[0].arg not in {x.id for x in ast.walk(it) if isinstance(x, ast.Name)}:
             res.undecided.append("json_to_system: creation loop does not iterate over system_dict")
         elif src_line < upg.lineno:
             res.findings.append(Finding(
